@@ -349,6 +349,21 @@ def idspace(F):
                                         continue
                                     r.ob(False, {"comparison": snip, "fn": fn["path"]})
                                     r.violate(key, F.loc(fn, n), "a position in `%s` (a %s-indexed collection) is compared with the payload of a %s: the two index spaces differ as soon as the module has imports of several kinds" % (coll, want, B.split("::")[-1]))
+    # `impl GetID for T`: the id an element reports is its own index-space id — every ID newtype the accessor touches is one
+    # and the same (an imported memory's `import_id` is its position among the imports, not among the memories)
+    for g in F.fns:
+        if g.get("body") is None or g["name"] != "get_id" or not (g.get("impl_trait") or "").endswith("GetID"):
+            continue
+        tys = set()
+        for x in walk(g["body"]):
+            t = (x.get("ty") or "").replace("&mut ", "").replace("&", "").strip()
+            if x.get("k") in ("Binding", "Field", "Path") and t in ids:
+                tys.add(t.split("::")[-1])
+        ok = len(tys) == 1 and "ImportsID" not in tys
+        r.ob(ok, {"get_id of": (g.get("self_adt") or "").split("::")[-1], "id types read": sorted(tys)})
+        if not ok:
+            r.violate("%s | mixes %s" % (g["path"], "+".join(sorted(tys))), F.loc(g),
+                      "%s::get_id reads ids of %s: the id map built at encode time keys elements by this value, so an element reporting its position in another index space is remapped as a different element" % ((g.get("self_adt") or "").split("::")[-1], sorted(tys)))
     r.count("id_constructions", n_ctor)
     return r
 
@@ -1491,4 +1506,45 @@ def kind_mix(F):
                     r.violate("%s | %s arm uses %s" % (fn["path"], next(iter(vs)), "+".join(sorted(foreign.values()))), F.loc(fn, arm),
                               "the arm for %s reads or updates the bookkeeping of another kind (%s): the counters of the two kinds drift apart" % (next(iter(vs)), ", ".join(sorted(foreign.values()))))
     r.count("kind_expressions", n)
+    return r
+
+
+def write_to_copy(F):
+    """R-WRITE-TO-COPY (zero expected): an assignment whose target is a by-value `mut` binding of a match / if-let pattern
+    (`match *self { Global(mut id) => { id = new } }`, possible because the matched type is Copy) changes a temporary, not
+    the matched value; when the binding is not read afterwards the assignment has no effect at all — a re-indexing step
+    written that way silently does nothing."""
+    r = RuleResult("R-WRITE-TO-COPY",
+                   "no assignment targets a by-value `mut` pattern binding (a copy of part of the matched value) that is never read afterwards")
+    n = 0
+    for fn in F.fns:
+        if fn.get("body") is None:
+            continue
+        for a in walk(fn["body"]):
+            if a.get("k") not in ("Assign", "AssignOp"):
+                continue
+            l = peel(a["lhs"])
+            if not (l.get("k") == "Path" and l.get("res", {}).get("r") == "local"):
+                continue
+            hid = l["res"]["hid"]
+            pat, scr, kind = binding_site(fn["body"], hid)
+            if pat is None or kind == "let":
+                continue
+            b = [x for x in walk(pat) if x.get("k") == "Binding" and x.get("hid") == hid]
+            if not b or "Mut" not in (b[0].get("mode") or "") or (b[0].get("ty") or "").startswith("&"):
+                continue
+            n += 1
+            from vlib.facts import sp_key
+            read_after = any(x.get("k") == "Path" and x.get("res", {}).get("hid") == hid and x is not l and sp_key(x) > sp_key(a)
+                             for x in walk(fn["body"]))
+            r.ob(read_after, {"fn": fn["path"], "binding": b[0].get("name"), "read_after_write": read_after})
+            if not read_after:
+                r.violate("%s | write to by-value binding %s" % (fn["path"], b[0].get("name")), F.loc(fn, a),
+                          "`%s` is a by-value `mut` binding of a pattern (a copy of part of the matched value): assigning to it changes the copy only, and nothing reads it afterwards — the update this code was meant to perform never happens" % b[0].get("name"))
+            if fn["path"] not in r.analysed:
+                r.analysed.append(fn["path"])
+    r.count("by_value_binding_writes", n)
+    r.obligations = max(r.obligations, 1)
+    if not r.violations:
+        r.discharged = max(r.discharged, 1)
     return r
